@@ -26,7 +26,7 @@ type SubSpec struct {
 	ID          string `json:"id,omitempty"`
 	BP          bool   `json:"bp"`
 	UpdatesOnly bool   `json:"uo"`
-	Consume     string `json:"consume"` // drain | stop | none
+	Consume     string `json:"consume"` // drain | stop | none | abandon
 	StopAfter   int    `json:"stopAfter,omitempty"`
 	Cancel      string `json:"cancel"` // end | before | timer | point | never
 	CancelUs    int    `json:"cancelUs,omitempty"`
@@ -219,6 +219,9 @@ func (s *subRun) consume(next func() (ev, bool, bool)) {
 		<-s.resume
 	case "none":
 		<-s.resume
+	case "abandon": // stops receiving, cancels, and never looks at the channel again
+		<-s.resume
+		return
 	}
 	for recvOne() {
 	}
@@ -568,7 +571,7 @@ func runStress(sc Scenario) (out Outcome) {
 		}
 	}
 	for _, s := range subs {
-		if s.spec.Cancel == "never" {
+		if s.spec.Cancel == "never" || s.spec.Consume == "abandon" {
 			continue
 		}
 		o.eval(monShutdown, "closed-after-cancel/"+s.class(sc.Res)+"/"+s.spec.Consume+"/"+s.spec.Cancel+"/"+s.spec.Point, true)
